@@ -49,6 +49,8 @@ def items(tier, seed):
     for lo in range(0, len(cases), 60):
         out.append({"part": "stars", "lo": lo, "hi": min(len(cases), lo + 60), "tier": tier})
     out.append({"part": "two-unit", "tier": tier})
+    out.append({"part": "multi-centre", "tier": tier})
+    out.append({"part": "class-sequence", "tier": tier})
     out.append({"part": "ez", "tier": tier})
     for i in range(len(R.organics())):
         out.append({"part": "organic", "idx": i, "tier": tier})
@@ -134,6 +136,57 @@ def run_item(item):
             mm = m.copy().relabel({a: a + 1 for a in m.atoms})
             roundtrip(mm, out, item, "two-unit")
         return out
+    if item["part"] == "multi-centre":
+        # a coordination centre of every class one of whose ligands is itself a tetrahedral stereocentre; both insertion
+        # orders (ligand carbon before / after the metal), both parities, several orderings of the metal descriptor
+        for cls, cel, n in U.STAR_CLASSES:
+            if cel == "N":
+                continue
+            npos = RS.NPOS[cls]
+            for order_first in ("metal", "carbon", "substituents", "carbon-metal", "metal-subs-carbon"):
+                for tp in (1, -1):
+                    for mperm in list(itertools.permutations(range(1, npos)))[:: max(1, (npos - 1) * 3)]:
+                        for mp in RS.PARITIES[cls]:
+                            # metal 1, ligands 2..n+1 (ligand 2 is the carbon), carbon substituents 20,21,22
+                            lig = list(range(2, n + 2))
+                            atoms = {1: cel, 2: "C", 20: "H", 21: "F", 22: "Cl"}
+                            for k, a in enumerate(lig[1:]):
+                                atoms[a] = U.LIG[k + 1]
+                            bonds = [(1, a) for a in lig] + [(2, 20), (2, 21), (2, 22)]
+                            base = (1, *lig)
+                            md = (cls, (1,) + tuple(base[i] for i in mperm), mp)
+                            td = ("Tetrahedral", (2, 1, 20, 21, 22), tp)
+                            if order_first == "metal":
+                                aorder = [1] + lig + [20, 21, 22]
+                            elif order_first == "carbon":
+                                aorder = [2, 20, 21, 22, 1] + lig[1:]
+                            elif order_first == "carbon-metal":
+                                aorder = [2, 1, 20, 21, 22] + lig[1:]
+                            elif order_first == "metal-subs-carbon":
+                                aorder = [20, 1, 21] + lig[1:] + [2, 22]
+                            else:
+                                aorder = [22, 21, 20] + list(reversed(lig)) + [1]
+                            m = U.mk(SMG, [(a, atoms[a]) for a in aorder], bonds if order_first != "substituents" else list(reversed(bonds)),
+                                     astereo=[md, td])
+                            roundtrip(m, out, item, f"multi-centre/{cls}/{order_first}-first")
+        out["samples"].append({"part": "multi-centre"})
+        return out
+    if item["part"] == "class-sequence":
+        # the same centre / ligand identifiers exported under different descriptor classes one after the other in one
+        # process (module-level caches keyed too weakly), every ordering of the four ligands
+        seqs = [("Tetrahedral", "C", 1), ("SquarePlanar", "Pt", 0), ("Tetrahedral", "C", -1), ("SquarePlanar", "Pt", 0),
+                ("Tetrahedral", "C", 1)]
+        els = [U.LIG[i] for i in range(4)]
+        for perm in itertools.permutations((2, 3, 4, 5)):
+            for cls, cel, par in seqs:
+                m = U.star(cls, cel, els, (cls, (1, *perm), par), ids=[1, 2, 3, 4, 5])
+                roundtrip(m, out, item, f"class-sequence/{cls}")
+        els5 = [U.LIG[i] for i in range(5)]
+        for perm in list(itertools.permutations((2, 3, 4, 5, 6)))[::5]:
+            for cls, cel, par in (("TrigonalBipyramidal", "P", 1), ("TrigonalBipyramidal", "P", -1)):
+                m = U.star(cls, cel, els5, (cls, (1, *perm), par), ids=[1, 2, 3, 4, 5, 6])
+                roundtrip(m, out, item, f"class-sequence/{cls}")
+        return out
     if item["part"] == "ez":
         els = ("H", "F", "Cl", "Br", "C")
         for (x, y), (z, w) in itertools.product(itertools.combinations(els, 2), repeat=2):
@@ -153,8 +206,11 @@ def run_item(item):
                                 bonds.append((ids[k], hid))
                                 nxt += 1
                     t = (ids[2], ids[3], ids[0], ids[1], ids[5], ids[4]) if swap else (ids[2], ids[3], ids[0], ids[1], ids[4], ids[5])
-                    m = U.mk(SMG, atoms, bonds, bstereo=[("PlanarBond", t, 0)])
-                    roundtrip(m, out, item, "ez" + ("/scattered-ids" if pool is POOL2 else ""), bond_orders=True, need_bond_stereo=True)
+                    # every spelling of the same planar arrangement (written from either end of the bond)
+                    for q in sorted(RS.ROT("PlanarBond")):
+                        m = U.mk(SMG, atoms, bonds, bstereo=[("PlanarBond", RS.apply(t, q), 0)])
+                        roundtrip(m, out, item, "ez" + ("/scattered-ids" if pool is POOL2 else ""), bond_orders=True,
+                                  need_bond_stereo=True)
         out["samples"].append({"part": "E/Z with regenerated bond orders"})
         return out
     # organic molecules imported from RDKit, then exported and imported again
